@@ -128,6 +128,11 @@ def Proj.toState (p : Proj) (ghost : State) : State :=
     nextVault := p.nv, nextStable := p.ns, length := p.len,
     unsolicited := ghost.unsolicited, extSupply := ghost.extSupply }
 
+def insertLocked (x : LockedRec) : List LockedRec → List LockedRec
+  | [] => [x]
+  | y :: t => if x.vaultId ≤ y.vaultId then x :: y :: t else y :: insertLocked x t
+def sortLocked (l : List LockedRec) : List LockedRec := l.foldr insertLocked []
+
 def dedup (l : List Nat) : List Nat := l.foldl (fun acc x => if acc.contains x then acc else acc ++ [x]) []
 
 /-- compare the model state with the real projection on exactly the keys the projection lists -/
@@ -136,7 +141,8 @@ def compare (cfgL : List Product) (m : State) (p : Proj) : List String :=
   let prods := cfgL.map (·.id)
   let c1 := if m.vaults = r.vaults then [] else ["vaults"]
   let c2 := if m.stables = r.stables then [] else ["stables"]
-  let c3 := if m.locked = r.locked then [] else ["locked"]
+  -- the store orders locked vaults by (app, locked id); compare as sets, ordered by the original vault id
+  let c3 := if sortLocked m.locked = sortLocked r.locked then [] else ["locked"]
   let c4 := if m.length = r.length then [] else [s!"length model={m.length} impl={r.length}"]
   let c5 := if m.nextVault = r.nextVault ∧ m.nextStable = r.nextStable then [] else ["counters"]
   let c6 := prods.filterMap fun pr =>
